@@ -13,6 +13,7 @@ __doc__ = """
 """
 
 # Site-Packages
+import numpy as np
 from numpy import array
 
 # This Package modules
@@ -32,8 +33,9 @@ def ncf2height_pressure(ncffile, outpath, hght='HGHT', pres='PRES',
         d = array(d, ndmin=1).astype('>i')
         d = (d % (d // 100000 * 100000)).astype('>i')
         for i, (h2d, p2d) in enumerate(zip(h3d, p3d)):
-            h2d = h2d.astype('>f')
-            p2d = p2d.astype('>f')
+            # (a netCDF source hands out masked arrays)
+            h2d = np.ma.filled(h2d).astype('>f')
+            p2d = np.ma.filled(p2d).astype('>f')
             buf = array((h2d.size + 2) * 4, ndmin=1).astype('>i').tobytes()
             outfile.write(buf + t.tobytes() + d.tobytes())
             h2d.tofile(outfile)
